@@ -13,10 +13,20 @@
 import DateutilVerif.Base.Wire
 import DateutilVerif.Model.Cache
 import DateutilVerif.Model.RRuleSet
+import DateutilVerif.Generated.RRBaseCache
 import DateutilVerif.Ops.QueryOps
 
 namespace Ops.CacheOps
 open Wire _root_.Queries _root_.Cache Ops.QueryOps
+
+/-- `Cache.step` with the statements of `_iter_cached` executed by the program translated from the source -/
+def stepT (s : State) (t : Tid) : Option State :=
+  match s.its[t]? with
+  | none => none
+  | some it =>
+    match CachePy.stepIterT Gen.iterCachedProgram s.sh t it with
+    | none => none
+    | some (sh', it') => some { sh := sh', its := s.its.set t it' }
 
 def parseQueries? (s : String) : Option (List Query) :=
   if s == "-" then some [] else (s.splitOn ";").mapM parseQuery?
@@ -31,43 +41,43 @@ def parseSegments? (s : String) : Option (List (Nat × Option Nat)) :=
     | _ => none)
 
 /-- list-iterator steps touch no shared state and are not trace points: run them through -/
-def settle (s : State) (t : Tid) : Nat → State
+def settle (stepf : State → Tid → Option State) (s : State) (t : Tid) : Nat → State
   | 0 => s
   | fuel + 1 =>
     match s.its[t]? with
-    | some it => if it.pc == .listIter then settle ((step s t).getD s) t fuel else s
+    | some it => if it.pc == .listIter then settle stepf ((stepf s t).getD s) t fuel else s
     | none => s
 
 def pcOf (s : State) (t : Tid) : PC := match s.its[t]? with | some it => it.pc | none => .done
 
 /-- run thread t for at most k statements; stops at done / blocked.  Returns state, trace (reversed), progress flag -/
-def runSeg (s : State) (t : Tid) : Nat → List String → Bool → State × List String × Bool
+def runSeg (stepf : State → Tid → Option State) (s : State) (t : Tid) : Nat → List String → Bool → State × List String × Bool
   | 0, tr, p => (s, tr, p)
   | k + 1, tr, p =>
     if pcOf s t == .done then (s, tr, p) else
-    match step s t with
+    match stepf s t with
     | none => (s, s!"{t}.B" :: tr, p)
     | some s' =>
-      let s'' := settle s' t (s'.sh.cache.length + 2)
-      runSeg s'' t k (s!"{t}.{(pcOf s'' t).line}" :: tr) true
+      let s'' := settle stepf s' t (s'.sh.cache.length + 2)
+      runSeg stepf s'' t k (s!"{t}.{(pcOf s'' t).line}" :: tr) true
 
 def bigFuel (s : State) : Nat := 100 + 60 * (s.sh.src.length + 2)
 
-def runSegs (s : State) (tr : List String) : List (Nat × Option Nat) → State × List String
+def runSegs (stepf : State → Tid → Option State) (s : State) (tr : List String) : List (Nat × Option Nat) → State × List String
   | [] => (s, tr)
   | (t, k) :: rest =>
-    let (s', tr', _) := runSeg s t (k.getD (bigFuel s)) tr false
-    runSegs s' tr' rest
+    let (s', tr', _) := runSeg stepf s t (k.getD (bigFuel s)) tr false
+    runSegs stepf s' tr' rest
 
 /-- round-robin to completion: rounds until a whole round makes no progress -/
-def finishAll (s : State) (tr : List String) : Nat → State × List String
+def finishAll (stepf : State → Tid → Option State) (s : State) (tr : List String) : Nat → State × List String
   | 0 => (s, tr)
   | rounds + 1 =>
     let n := s.its.length
     let (s', tr', p) := (List.range n).foldl (fun (acc : State × List String × Bool) t =>
-        let (s1, tr1, p1) := runSeg acc.1 t (bigFuel acc.1) acc.2.1 false
+        let (s1, tr1, p1) := runSeg stepf acc.1 t (bigFuel acc.1) acc.2.1 false
         (s1, tr1, acc.2.2 || p1)) (s, tr, false)
-    if p then finishAll s' tr' rounds else (s', tr')
+    if p then finishAll stepf s' tr' rounds else (s', tr')
 
 def showStatus (s : State) (t : Tid) : String :=
   match s.its[t]? with
@@ -133,7 +143,7 @@ def runNexts (s : State) (out : List String) : List String → State × List Str
 /-- the state of a rule object between queries (no live iterators) -/
 def runQuery (sh : Shared) (q : Query) : Shared × Res :=
   let s0 : State := { sh := sh, its := [{ q := q }] }
-  let (s1, _) := finishAll s0 [] 3
+  let (s1, _) := finishAll step s0 [] 3
   (s1.sh, match s1.its[0]? with | some it => it.res.getD (.err .AssertionError) | none => .err .AssertionError)
 
 def runHistory (cacheOn : Bool) (src : List Int) : Shared → List Query → List String → List String
@@ -157,8 +167,16 @@ def handle (op : String) (args : List String) : Option String :=
   | "cache.run", [src, qs, segs] => do
       let src ← parseIntList? src; let qs ← parseQueries? qs; let segs ← parseSegments? segs
       let s0 := init src qs
-      let (s1, tr1) := runSegs s0 [] segs
-      let (s2, tr2) := finishAll s1 tr1 (qs.length + 2)
+      let (s1, tr1) := runSegs step s0 [] segs
+      let (s2, tr2) := finishAll step s1 tr1 (qs.length + 2)
+      let tr := ",".intercalate tr2.reverse
+      some s!"ok {if tr.isEmpty then "-" else tr} {showFinal s2}"
+  | "cache.trun", [src, qs, segs] => do
+      -- the same schedule with the statements of `_iter_cached` taken from the TRANSLATED program (Gen.iterCachedProgram)
+      let src ← parseIntList? src; let qs ← parseQueries? qs; let segs ← parseSegments? segs
+      let s0 := init src qs
+      let (s1, tr1) := runSegs stepT s0 [] segs
+      let (s2, tr2) := finishAll stepT s1 tr1 (qs.length + 2)
       let tr := ",".intercalate tr2.reverse
       some s!"ok {if tr.isEmpty then "-" else tr} {showFinal s2}"
   | "cache.nexts", [src, k, ops] => do
